@@ -111,6 +111,11 @@ func c16Script(ctx *core.Ctx, idx int) core.Result {
 			raw = append(raw, fmt.Sprintf("write(\"<r%d>\")", k))
 		}
 	}
+	if r.Chance(1, 5) {
+		// multi-line strings whose lines end in a backslash, the next line starting with the closing quote or a backslash
+		raw = append(raw, []string{"zq = \"abc\\\n\"", "write(\"x\\\n\\\n\" + \"|\")", "zq = \"l1\\\\\\\n\" + \"t\"", "write(\"a\\\n\\\\\")"}[r.Intn(4)])
+		raw = append(raw, "write(\"<m>\")", "write(\"<n>\")")
+	}
 	// reference
 	ref := rs.New()
 	want := make([]rs.Result, len(stmts))
